@@ -1026,6 +1026,29 @@ nd_histories(vh::Rng& rng, int histories, int len, FILE* out, NdStats& st)
                       const int v = rng.range(-9, 9);
                       trace << "a.at(..)=" << v << "; ";
                       a.at(coord<D>(cc)) = v;
+                      {
+                        // read it back through one of the checked access paths (const / non-const, coordinate / chained)
+                        const int form = rng.range(0, 3);
+                        int got = v + 1;
+                        bool threw = false;
+                        try
+                          {
+                            got = checked_read<D>(a, cc, form);
+                          }
+                        catch (std::out_of_range&)
+                          {
+                            threw = true;
+                          }
+                        ++g_checks;
+                        if (threw || got != v)
+                          {
+                            oracle_fail(out, st, D,
+                                        std::string("checked read (form ") + std::to_string(form) + ") inside the range "
+                                            + (threw ? "threw" : "returned another element"),
+                                        trace.str());
+                            stop = true;
+                          }
+                      }
                       Ref* r = &ra;
                       for (int d = 0; d + 1 < D; ++d)
                         r = &r->sub[cc[d] - r->lo];
